@@ -646,7 +646,9 @@ def check_C07(ctx):
                     pass
                 rep = {"family": "frames", "run_seed": run["seed"], "n": run["n"]}
                 if last is not None:
-                    rep["k"], rep["script"] = last["k"], last["hdr"] + script_of(last) + ["end"]
+                    mk = re.search(r"case (\d+):", run["log"])
+                    kk = int(mk.group(1)) if mk else last["k"]
+                    rep["k"], rep["script"] = kk, full_script(run, kk, last["hdr"] + script_of(last) + ["end"])
                 ctx.add_violation("a container scenario hung while rendering: " + run["log"].strip()[-300:], "render-hang", rep)
             for c in split_traces(os.path.join(run["dir"], "cases.txt")):
                 ctx.cov["evaluations"] += 1
@@ -708,6 +710,23 @@ def split_traces(path):
         elif l.startswith("t "):
             cur["trace"].append(l)
     return out
+
+
+def full_script(run, k, fallback):
+    """the complete script of scenario k as the harness wrote it before running it (scripts.txt); a scenario that hung or
+    panicked has only the steps it got through in its trace"""
+    try:
+        cur, keep = [], False
+        for l in read_lines(os.path.join(run["dir"], "scripts.txt")):
+            if l.startswith("case "):
+                cur, keep = [l], int(l.split()[1]) == k
+            elif keep:
+                cur.append(l)
+                if l == "end":
+                    return cur
+    except Exception:
+        pass
+    return fallback
 
 
 def script_of(case):
@@ -877,8 +896,11 @@ def frames_check(ctx, relevant_kinds, monitor, n_quick, n_thorough, deps, nontri
             last = cases[-1] if cases else {"hdr": [], "trace": []}
             if sig not in sigs:
                 sigs.add(sig)
+                mk = re.search(r"case (\d+):", run["log"])
+                kk = int(mk.group(1)) if mk else last.get("k", -1)
                 ctx.add_violation(what, sig, {"family": "frames", "run_seed": run["seed"], "n": run["n"],
-                                              "script": last["hdr"] + script_of(last) + ["end"], "log": run["log"][-4000:]})
+                                              "script": full_script(run, kk, last["hdr"] + script_of(last) + ["end"]),
+                                              "log": run["log"][-4000:]})
             found = True
         for c in cases:
             fr = frames_of(c)
